@@ -23,6 +23,8 @@ def features_of(text):
     f = []
     if re.search(r"DEFAULT -\d", text):
         f.append("negative-default")
+    if re.search(r"\{\s*NULL IDENTIFIED BY", text):
+        f.append("ioc-null-row")
     if re.search(r"SET \{\s*(\.\.\.\s*)?\}", text):
         f.append("empty-set")
     if re.search(r"OF (\[[^\]]*\] )?(IMPLICIT |EXPLICIT )?(SET|SEQUENCE) \(SIZE", text):
@@ -77,6 +79,10 @@ def run(tier, seed):
         jobs.append(("valid", FIXED_MODULE, os_, "FX"))
     for fam, ftext in FIXED_FAULTS:
         jobs.append(("fault:" + fam, ftext, (), "FXF"))
+    # information object classes / sets (the random generator of this check has none): each shape under three option sets
+    for nm, itext in FIXED_IOC:
+        for os_ in [(), ("-fwide-types",), ("-fcompound-names", "-findirect-choice")]:
+            jobs.append(("valid", itext, os_, "IOC:" + nm))
 
     def one(job):
         kind, text, opts, name = job
@@ -258,6 +264,36 @@ DeepEl ::= SET OF CHOICE { da [0] Ratio, db [1] SEQUENCE { x Bits } }
 
 END
 """
+
+_IOC_HEAD = "FS ::= CLASS { &id INTEGER UNIQUE, &Type } WITH SYNTAX { &Type IDENTIFIED BY &id }\n"
+FIXED_IOC = [
+    ("named-rows", "I1 DEFINITIONS AUTOMATIC TAGS ::= BEGIN\nA ::= INTEGER\nB ::= SEQUENCE { x IA5String, y BOOLEAN OPTIONAL }\n"
+                   "Frame ::= SEQUENCE { ident FS.&id({FT}), value FS.&Type({FT}{@ident}), ... }\n" + _IOC_HEAD +
+                   "FT FS ::= { { A IDENTIFIED BY 1 } | { B IDENTIFIED BY 200 }, ... }\nEND\n"),
+    ("built-in-rows", "I2 DEFINITIONS AUTOMATIC TAGS ::= BEGIN\nFrame ::= SEQUENCE { ident FS.&id({FT}), value FS.&Type({FT}{@ident}) }\n" + _IOC_HEAD +
+                      "FT FS ::= { { INTEGER IDENTIFIED BY 1 } | { IA5String IDENTIFIED BY 2 } | { BOOLEAN IDENTIFIED BY 3 } | { REAL IDENTIFIED BY 4 } }\nEND\n"),
+    ("built-in-NULL-row", "I3 DEFINITIONS AUTOMATIC TAGS ::= BEGIN\nFrame ::= SEQUENCE { ident FS.&id({FT}), value FS.&Type({FT}{@ident}) }\n" + _IOC_HEAD +
+                          "FT FS ::= { { NULL IDENTIFIED BY 1 } | { BOOLEAN IDENTIFIED BY 2 } }\nEND\n"),
+    ("same-type-twice", "I4 DEFINITIONS AUTOMATIC TAGS ::= BEGIN\nT ::= INTEGER\nU ::= UTF8String\n"
+                        "Frame ::= SEQUENCE { ident FS.&id({FT}), value FS.&Type({FT}{@ident}) }\n" + _IOC_HEAD +
+                        "FT FS ::= { { T IDENTIFIED BY 1 } | { U IDENTIFIED BY 2 } | { T IDENTIFIED BY 3 } | { T IDENTIFIED BY 4 } }\nEND\n"),
+    ("recursive-row", "I5 DEFINITIONS AUTOMATIC TAGS ::= BEGIN\nA ::= INTEGER\nWrap ::= SEQUENCE { n INTEGER, inner Frame OPTIONAL }\n"
+                      "Frame ::= SEQUENCE { ident FS.&id({FT}), value FS.&Type({FT}{@ident}) }\n" + _IOC_HEAD +
+                      "FT FS ::= { { A IDENTIFIED BY 1 } | { Wrap IDENTIFIED BY 2 } }\nEND\n"),
+    ("optional-open-type", "I6 DEFINITIONS AUTOMATIC TAGS ::= BEGIN\nT ::= INTEGER\nU ::= BOOLEAN\n"
+                           "Frame ::= SEQUENCE { ident FS.&id({FT}), value FS.&Type({FT}{@ident}) OPTIONAL }\n" + _IOC_HEAD +
+                           "FT FS ::= { { T IDENTIFIED BY 1 } | { U IDENTIFIED BY 2 } }\nEND\n"),
+    ("untagged-explicit", "I7 DEFINITIONS ::= BEGIN\nA ::= INTEGER\nB ::= IA5String\n"
+                          "Frame ::= SEQUENCE { ident FS.&id({FT}), value FS.&Type({FT}{@ident}) }\n" + _IOC_HEAD +
+                          "FT FS ::= { { A IDENTIFIED BY 1 } | { B IDENTIFIED BY 2 } }\nEND\n"),
+    ("constrained-id-single-object", "I8 DEFINITIONS IMPLICIT TAGS ::= BEGIN\nA ::= OCTET STRING\n"
+                                     "Frame ::= SEQUENCE { ident [0] FC.&id({FT}), value [1] FC.&Type({FT}{@.ident}) }\n"
+                                     "FC ::= CLASS { &id INTEGER (0..255) UNIQUE, &Type } WITH SYNTAX { &Type IDENTIFIED BY &id }\n"
+                                     "only FC ::= { A IDENTIFIED BY 136 }\nFT FC ::= { only }\nEND\n"),
+    ("two-open-types", "I9 DEFINITIONS AUTOMATIC TAGS ::= BEGIN\nA ::= INTEGER\nB ::= BOOLEAN\n"
+                       "Frame ::= SEQUENCE { ident FS.&id({FT}), value FS.&Type({FT}{@ident}), other FS.&Type({FT}{@ident}) }\n" + _IOC_HEAD +
+                       "FT FS ::= { { A IDENTIFIED BY 1 } | { B IDENTIFIED BY 2 } }\nEND\n"),
+]
 
 FIXED_FAULTS = [
     ("undefined-in-SET", "F1 DEFINITIONS EXPLICIT TAGS ::= BEGIN T ::= SET { a NoSuch1, b INTEGER } END\n"),
